@@ -204,18 +204,16 @@ Proof.
   cbv zeta. unfold update_moves_since_capture, update_move_number.
   destruct mv as [m| |]; [destruct (ptype_eqb (pm_type m) Pawn || cap)| |]; destruct (b_stm b) eqn:Es; cbn; rewrite ?Es; repeat split.
 Qed.
-Lemma finish_spec b1 mv cap b' :
-  (b7 <- update_pins_and_checks (update_en_passant K (set_side_to_move K (update_castling_rights K (update_moves_since_capture (update_move_number b1) mv cap) mv) (opp (b_stm b1))) mv) ;;
-   update_terminal_status K b7) = Ok b' ->
+Definition finish_facts (b1 : board) (mv : bmove) (cap : bool) (b' : board) : Prop :=
   (forall x, col_of b' x = col_of b1 x) /\ b_stm b' = opp (b_stm b1) /\ b_ep b' = ep_after mv /\
   b_half b' = (match mv with MovePiece m => if ptype_eqb (pm_type m) Pawn || cap then 0 else b_half b1 + 1 | _ => b_half b1 + 1 end) /\
   b_full b' = (match b_stm b1 with Black => b_full b1 + 1 | White => b_full b1 end) /\
   rights_of b' (b_stm b1) = cr_sub (rights_of b1 (b_stm b1)) (own_loss (b_stm b1) mv) /\
   rights_of b' (opp (b_stm b1)) = cr_sub (rights_of b1 (opp (b_stm b1))) (opp_loss (b_stm b1) mv).
+Lemma finish_facts_any b1 mv cap pp cc f :
+  finish_facts b1 mv cap (with_term (with_pc (update_en_passant K (set_side_to_move K (update_castling_rights K (update_moves_since_capture (update_move_number b1) mv cap) mv) (opp (b_stm b1))) mv) pp cc) f).
 Proof.
-  intros E. apply bind_ok in E. destruct E as (b7 & E7 & E).
-  unfold update_terminal_status in E. apply bind_ok in E. destruct E as (f & _ & [= <-]).
-  unfold update_pins_and_checks in E7. apply bind_ok in E7. destruct E7 as (k & _ & E7). apply bind_ok in E7. destruct E7 as ([pp cc] & _ & [= <-]).
+  unfold finish_facts.
   set (b3 := update_moves_since_capture (update_move_number b1) mv cap) in *.
   destruct (clocks_fields b1 mv cap) as (C1 & C2 & C3 & C4 & C5 & C6 & C7). fold b3 in C1, C2, C3, C4, C5, C6, C7.
   destruct (update_castling_fields K b3 mv) as (U1 & U2 & U3 & U4 & U5 & U6 & U7).
@@ -229,14 +227,28 @@ Proof.
   destruct E6 as (P1 & P2 & P3 & P4 & P5 & P6 & P7).
   set (b6 := update_en_passant K b5 mv) in *.
   cbn [col_of with_term with_pc b_stm b_ep b_half b_full rights_of b_wr b_br m_pawn m_knight m_bishop m_rook m_queen m_king m_white m_black m_all].
-  change (col_of (with_term (with_pc b6 pp cc) (negb f))) with (col_of b6).
+  change (col_of (with_term (with_pc b6 pp cc) f)) with (col_of b6).
   split; [intros x; rewrite P1, S1, U1, C1; reflexivity|].
   split; [rewrite P2, S2; reflexivity|]. split; [exact P3|]. split; [rewrite P4, S4, U4, C6; reflexivity|]. split; [rewrite P5, S5, U5, C7; reflexivity|].
   rewrite C2 in U6, U7.
-  assert (R : forall x, rights_of (with_term (with_pc b6 pp cc) (negb f)) x = rights_of b4 x).
+  assert (R : forall x, rights_of (with_term (with_pc b6 pp cc) f) x = rights_of b4 x).
   { intros x. destruct x; cbn [rights_of with_term with_pc b_wr b_br]; [rewrite P6, S6|rewrite P7, S7]; reflexivity. }
   assert (R3 : forall x, rights_of b3 x = rights_of b1 x) by (intros x; destruct x; cbn [rights_of]; [exact C4|exact C5]).
   rewrite !R, U6, U7, !R3. split; reflexivity.
+Qed.
+Lemma finish_spec_gen b1 mv cap b7 f :
+  update_pins_and_checks (update_en_passant K (set_side_to_move K (update_castling_rights K (update_moves_since_capture (update_move_number b1) mv cap) mv) (opp (b_stm b1))) mv) = Ok b7 -> finish_facts b1 mv cap (with_term b7 f).
+Proof.
+  intros E7.
+  unfold update_pins_and_checks in E7. apply bind_ok in E7. destruct E7 as (k & _ & E7). apply bind_ok in E7. destruct E7 as ([pp cc] & _ & [= <-]).
+  apply finish_facts_any.
+Qed.
+Lemma finish_spec b1 mv cap b' :
+  (b7 <- update_pins_and_checks (update_en_passant K (set_side_to_move K (update_castling_rights K (update_moves_since_capture (update_move_number b1) mv cap) mv) (opp (b_stm b1))) mv) ;;
+   update_terminal_status K b7) = Ok b' -> finish_facts b1 mv cap b'.
+Proof.
+  intros E. apply bind_ok in E. destruct E as (b7 & E7 & E).
+  unfold update_terminal_status in E. apply bind_ok in E. destruct E as (f & _ & [= <-]). now apply finish_spec_gen.
 Qed.
 End Finish2.
 
@@ -259,23 +271,25 @@ Proof.
   destruct side; [rewrite Hr in H2; exact H2|rewrite Hr in H3; exact H3].
 Qed.
 
-Theorem piece_move_refines b m b' : MaskInv b -> valid (abs b) = true -> legal (abs b) (MovePiece m) = true ->
-  pm_from m < 64 -> pm_to m < 64 -> make_move_unchecked K b (MovePiece m) = Ok b' -> abs b' = apply (abs b) (MovePiece m).
+Lemma pieces_spec b m : MaskInv b -> valid (abs b) = true -> legal (abs b) (MovePiece m) = true ->
+  pm_from m < 64 -> pm_to m < 64 ->
+  let c := b_stm b in
+  exists b1, (x <- move_piece K b m ;; clear_square_if_en_passant K x m) = Ok b1 /\ MaskInv b1 /\
+  (b_stm b1 = c /\ rights_of b1 c = rights_of b c /\ rights_of b1 (opp c) = rights_of b (opp c) /\ b_half b1 = b_half b /\ b_full b1 = b_full b /\
+     forall y, y < 64 -> cell_at b1 y = nth (N.to_nat y) (placement (apply_pm (abs b) m)) None).
 Proof.
-  intros I V L Hs Hd E. destruct (valid_parts _ V) as (Vlen & VrW & VrB & Vep).
+  intros I V L Hs Hd. destruct (valid_parts _ V) as (Vlen & VrW & VrB & Vep).
   cbn [legal] in L. apply andb_prop in L. destruct L as [L _]. apply andb_prop in L. destruct L as [L _]. apply andb_prop in L. destruct L as [L1 L2].
   apply opiece_eqb_true in L1. rewrite (piece_at_abs b _ I) in L1. change (stm (abs b)) with (b_stm b) in L1.
   set (s := pm_from m) in *. set (d := pm_to m) in *. set (t := pm_type m) in *. set (c := b_stm b) in *.
-  (* the pieces *)
-  unfold make_move_unchecked in E. apply bind_ok in E. destruct E as (b1 & E1 & E).
+  cbv zeta. fold c.
   destruct (cells_move_piece K b m t c I Hs Hd L1) as (x & Ex & Ix & Mx & Cx). fold s d t in Cx.
-  rewrite Ex in E1. cbn [bind] in E1.
   assert (Hep : is_en_passant_move m x = is_ep_capture (abs b) m).
   { unfold is_en_passant_move, is_ep_capture. destruct Mx as (_ & _ & _ & Mep & _). rewrite Mep. cbn [ep abs]. fold t d.
     destruct (b_ep b); [|now rewrite andb_false_r]. cbn [osq_eqb]. now rewrite (N.eqb_sym d s0). }
-  assert (Hstm1 : b_stm b1 = c /\ rights_of b1 c = rights_of b c /\ rights_of b1 (opp c) = rights_of b (opp c) /\ b_half b1 = b_half b /\ b_full b1 = b_full b /\
-     forall y, y < 64 -> cell_at b1 y = nth (N.to_nat y) (placement (apply_pm (abs b) m)) None).
-  { unfold clear_square_if_en_passant in E1. rewrite Hep in E1. unfold apply_pm. cbn [placement]. fold s d t c.
+  assert (G : exists b1, clear_square_if_en_passant K x m = Ok b1 /\ MaskInv b1 /\ (b_stm b1 = c /\ rights_of b1 c = rights_of b c /\ rights_of b1 (opp c) = rights_of b (opp c) /\ b_half b1 = b_half b /\ b_full b1 = b_full b /\
+     forall y, y < 64 -> cell_at b1 y = nth (N.to_nat y) (placement (apply_pm (abs b) m)) None)).
+  { unfold clear_square_if_en_passant. rewrite Hep. unfold apply_pm. cbn [placement]. fold s d t c.
     change (stm (abs b)) with c. change (placement (abs b)) with (abs_pl b).
     destruct (is_ep_capture (abs b) m) eqn:Eep.
     - (* en passant: the victim square *)
@@ -289,12 +303,13 @@ Proof.
       pose proof pawn_geo_sweep as G. rewrite forallb_forall in G. specialize (G c ltac:(destruct c; cbn; tauto)).
       pose proof (forallb_squares2 _ G s d Hs Hd) as G2. unfold pawn_geo_ok in G2. rewrite Hmem, Hrank in G2. cbn [negb orb] in G2.
       apply andb_prop in G2. destruct G2 as [G2 _]. apply andb_prop in G2. destruct G2 as [G2 _]. apply andb_prop in G2. destruct G2 as [Gv Gne].
-      unfold res_is, model_victim in Gv. destruct Mx as (Mstm & Mwr & Mbr & Mep & _ & _ & _ & Mh & Mf). rewrite Mstm in E1. fold c d in E1.
-      destruct (unwrap (match c with White => sq_down d | Black => sq_up d end)) as [v| |] eqn:Ev; try discriminate.
-      apply N.eqb_eq in Gv. subst v. cbn [bind] in E1. set (v := smk (srank s) (sfile d)) in *.
+      unfold res_is, model_victim in Gv. destruct Mx as (Mstm & Mwr & Mbr & Mep & _ & _ & _ & Mh & Mf). rewrite Mstm. fold c d.
+      destruct (unwrap (match c with White => sq_down d | Black => sq_up d end)) as [v| |] eqn:Ev; try discriminate Gv.
+      apply N.eqb_eq in Gv. subst v. cbn [bind]. set (v := smk (srank s) (sfile d)) in *.
       assert (Hv : v < 64).
       { unfold v, smk, srank, sfile. assert (s / 8 < 8) by (apply N.div_lt_upper_bound; lia). assert (d mod 8 < 8) by (apply N.mod_lt; lia). lia. }
-      destruct (cells_clear K x v b1 Ix Hv E1) as (I1 & M1 & C1). destruct M1 as (N1 & N2 & N3 & _ & _ & _ & _ & N8 & N9).
+      destruct (clear_square_spec K x v Ix Hv) as (b1 & E1 & _). exists b1. split; [exact E1|].
+      destruct (cells_clear K x v b1 Ix Hv E1) as (I1 & M1 & C1). split; [exact I1|]. destruct M1 as (N1 & N2 & N3 & _ & _ & _ & _ & N8 & N9).
       assert (Rall : forall z, rights_of b1 z = rights_of b z) by (intros []; cbn [rights_of]; [rewrite N2; exact Mwr|rewrite N3; exact Mbr]).
       split; [rewrite N1; exact Mstm|]. split; [apply Rall|]. split; [apply Rall|].
       split; [rewrite N8; exact Mh|]. split; [rewrite N9; exact Mf|].
@@ -305,7 +320,7 @@ Proof.
       unfold abs_pl. rewrite nth_map_squares by exact Hy.
       apply negb_true_iff in Gne. rewrite (N.eqb_sym v y), (N.eqb_sym d y), (N.eqb_sym s y).
       destruct (N.eqb_spec y v) as [->|]; [rewrite Gne; destruct (v =? s); reflexivity|reflexivity].
-    - injection E1 as <-. destruct Mx as (Mstm & Mwr & Mbr & Mep & _ & _ & _ & Mh & Mf).
+    - exists x. split; [reflexivity|]. split; [exact Ix|]. destruct Mx as (Mstm & Mwr & Mbr & Mep & _ & _ & _ & Mh & Mf).
       assert (Rall : forall z, rights_of x z = rights_of b z) by (intros []; cbn [rights_of]; assumption).
       split; [exact Mstm|]. split; [apply Rall|]. split; [apply Rall|].
       split; [exact Mh|]. split; [exact Mf|].
@@ -313,8 +328,21 @@ Proof.
       rewrite (nth_put _ d _ y) by (rewrite ?put_length, ?abs_pl_length; auto).
       rewrite (nth_put _ s _ y) by (rewrite ?abs_pl_length; auto).
       unfold abs_pl. rewrite nth_map_squares by exact Hy. rewrite (N.eqb_sym d y), (N.eqb_sym s y). reflexivity. }
+  destruct G as (b1 & E1 & I1 & G). exists b1. split; [rewrite Ex; cbn [bind]; exact E1|]. split; [exact I1|exact G].
+Qed.
+Lemma res_ok_inj {A} (x y : A) : @Ok A x = Ok y -> x = y. Proof. now intros [= ->]. Qed.
+Lemma piece_assemble b m b1 b' : MaskInv b -> valid (abs b) = true -> legal (abs b) (MovePiece m) = true ->
+  pm_from m < 64 -> pm_to m < 64 ->
+  (b_stm b1 = b_stm b /\ rights_of b1 (b_stm b) = rights_of b (b_stm b) /\ rights_of b1 (opp (b_stm b)) = rights_of b (opp (b_stm b)) /\ b_half b1 = b_half b /\ b_full b1 = b_full b /\
+     forall y, y < 64 -> cell_at b1 y = nth (N.to_nat y) (placement (apply_pm (abs b) m)) None) ->
+  finish_facts b1 (MovePiece m) (is_capture_on_board m b) b' -> abs b' = apply (abs b) (MovePiece m).
+Proof.
+  intros I V L Hs Hd Hstm1 FF. destruct (valid_parts _ V) as (Vlen & VrW & VrB & Vep).
+  cbn [legal] in L. apply andb_prop in L. destruct L as [L _]. apply andb_prop in L. destruct L as [L _]. apply andb_prop in L. destruct L as [L1 L2].
+  apply opiece_eqb_true in L1. rewrite (piece_at_abs b _ I) in L1. change (stm (abs b)) with (b_stm b) in L1.
+  set (s := pm_from m) in *. set (d := pm_to m) in *. set (t := pm_type m) in *. set (c := b_stm b) in *.
   destruct Hstm1 as (S1 & Rc1 & Ro1 & Hh1 & Hf1 & Cells1).
-  apply finish_spec in E. rewrite S1 in E. destruct E as (F1 & F2 & F3 & F4 & F5 & F6 & F7).
+  unfold finish_facts in FF. rewrite S1 in FF. destruct FF as (F1 & F2 & F3 & F4 & F5 & F6 & F7).
   (* assemble the record *)
   assert (Hcap : is_capture_on_board m b = is_capture (abs b) m).
   { unfold is_capture_on_board, is_capture. rewrite is_blank_land_bit', negb_involutive. change (stm (abs b)) with c. fold c d.
@@ -360,15 +388,30 @@ Proof.
   - (* half-move clock *) rewrite F4, Hh1, Hcap. reflexivity.
   - (* move number *) rewrite F5, Hf1. reflexivity.
 Qed.
+Theorem piece_move_refines b m b' : MaskInv b -> valid (abs b) = true -> legal (abs b) (MovePiece m) = true ->
+  pm_from m < 64 -> pm_to m < 64 -> make_move_unchecked K b (MovePiece m) = Ok b' -> abs b' = apply (abs b) (MovePiece m).
+Proof.
+  intros I V L Hs Hd E.
+  unfold make_move_unchecked in E. apply bind_ok in E. destruct E as (b1 & E1 & E).
+  destruct (pieces_spec b m I V L Hs Hd) as (b1' & E1' & _ & Hstm1). rewrite E1' in E1. apply res_ok_inj in E1. subst b1'.
+  apply finish_spec in E. exact (piece_assemble b m b1 b' I V L Hs Hd Hstm1 E).
+Qed.
 End Main.
 
 Section Castle.
 Variable K : zkeys.
-Theorem castle_refines b (side : bool) b' : MaskInv b -> valid (abs b) = true ->
-  legal (abs b) (if side then CastleK else CastleQ) = true ->
-  make_move_unchecked K b (if side then CastleK else CastleQ) = Ok b' -> abs b' = apply (abs b) (if side then CastleK else CastleQ).
+Definition castle_facts (b : board) (side : bool) (b1 : board) : Prop :=
+  let c := b_stm b in let r := back_rank c in
+  let e := mk_sq r 4 in let kt := mk_sq r (if side then 6 else 2) in let rf := mk_sq r (if side then 7 else 0) in let rt := mk_sq r (if side then 5 else 3) in
+  b_stm b1 = c /\ (forall z, rights_of b1 z = rights_of b z) /\ b_half b1 = b_half b /\ b_full b1 = b_full b /\
+  forall y, cell_at b1 y = if rt =? y then Some (Rook, c) else if rf =? y then None else if kt =? y then Some (King, c) else if e =? y then None else cell_at b y.
+Lemma castle_pieces b (side : bool) : MaskInv b -> valid (abs b) = true -> legal (abs b) (if side then CastleK else CastleQ) = true ->
+  exists b1, MaskInv b1 /\
+     make_move_unchecked K b (if side then CastleK else CastleQ) =
+       (b7 <- update_pins_and_checks (update_en_passant K (set_side_to_move K (update_castling_rights K (update_moves_since_capture (update_move_number b1) (if side then CastleK else CastleQ) false) (if side then CastleK else CastleQ)) (opp (b_stm b1))) (if side then CastleK else CastleQ)) ;; update_terminal_status K b7) /\
+     castle_facts b side b1.
 Proof.
-  intros I V L E. destruct (valid_parts _ V) as (Vlen & _).
+  intros I V L. destruct (valid_parts _ V) as (Vlen & _).
   assert (L' : castle_legal (abs b) side = true) by (destruct side; exact L). clear L.
   unfold castle_legal in L'. repeat (apply andb_prop in L'; destruct L' as [L' ?]).
   change (stm (abs b)) with (b_stm b) in *. set (c := b_stm b) in *.
@@ -381,25 +424,38 @@ Proof.
   { subst e kt rf rt r. destruct c, side; cbv; repeat split; try reflexivity; discriminate. }
   destruct Sq as (Ee & Erf & Ekt & Ert & He & Hkt & Hrf & Hrt & D1 & D2 & D3 & D4 & D5 & D6).
   rewrite <- Ee in Hking. rewrite <- Erf in Hrook.
-  (* the two piece moves *)
-  assert (E1 : exists b1, (x <- move_piece K b (mk_pm King e kt None) ;; move_piece K x (mk_pm Rook rf rt None)) = Ok b1 /\
-     make_move_unchecked K b (if side then CastleK else CastleQ) =
-       (b7 <- update_pins_and_checks (update_en_passant K (set_side_to_move K (update_castling_rights K (update_moves_since_capture (update_move_number b1) (if side then CastleK else CastleQ) false) (if side then CastleK else CastleQ)) (opp (b_stm b1))) (if side then CastleK else CastleQ)) ;; update_terminal_status K b7) /\
-     b_stm b1 = c /\ (forall z, rights_of b1 z = rights_of b z) /\ b_half b1 = b_half b /\ b_full b1 = b_full b /\
-     forall y, cell_at b1 y = if rt =? y then Some (Rook, c) else if rf =? y then None else if kt =? y then Some (King, c) else if e =? y then None else cell_at b y).
+  unfold castle_facts. cbv zeta. fold c. fold r. fold e kt rf rt.
   { destruct (cells_move_piece K b (mk_pm King e kt None) King c I He Hkt Hking) as (x & Ex & Ix & Mx & Cx). cbn [pm_from pm_to pm_promo pm_type mk_pm] in Cx.
     assert (Hrx : cell_at x rf = Some (Rook, c)).
     { rewrite Cx. destruct (N.eqb_spec kt rf); [congruence|]. destruct (N.eqb_spec e rf); [congruence|]. exact Hrook. }
     destruct (cells_move_piece K x (mk_pm Rook rf rt None) Rook c Ix Hrf Hrt Hrx) as (y & Ey & Iy & My & Cy). cbn [pm_from pm_to pm_promo pm_type mk_pm] in Cy.
-    exists y. split; [rewrite Ex; cbn [bind]; exact Ey|].
+    exists y. split; [exact Iy|].
     destruct Mx as (A1 & A2 & A3 & _ & _ & _ & _ & A8 & A9). destruct My as (B1 & B2 & B3 & _ & _ & _ & _ & B8 & B9).
     split.
     { unfold make_move_unchecked. fold c r. destruct side; cbn [bind]; fold e kt rf rt; rewrite Ex; cbn [bind]; rewrite Ey; cbn [bind]; reflexivity. }
     split; [rewrite B1; exact A1|]. split; [intros []; cbn [rights_of]; [rewrite B2; exact A2|rewrite B3; exact A3]|].
     split; [rewrite B8; exact A8|]. split; [rewrite B9; exact A9|].
     intros z. rewrite Cy, Cx. reflexivity. }
-  destruct E1 as (b1 & _ & Emk & S1 & R1 & Hh1 & Hf1 & Cells1).
-  rewrite Emk in E. apply finish_spec in E. rewrite S1 in E. destruct E as (F1 & F2 & F3 & F4 & F5 & F6 & F7).
+Qed.
+Lemma castle_assemble b (side : bool) b1 b' : MaskInv b -> valid (abs b) = true -> legal (abs b) (if side then CastleK else CastleQ) = true ->
+  castle_facts b side b1 -> finish_facts b1 (if side then CastleK else CastleQ) false b' -> abs b' = apply (abs b) (if side then CastleK else CastleQ).
+Proof.
+  intros I V L CF FF. destruct (valid_parts _ V) as (Vlen & _).
+  assert (L' : castle_legal (abs b) side = true) by (destruct side; exact L). clear L.
+  unfold castle_legal in L'. repeat (apply andb_prop in L'; destruct L' as [L' ?]).
+  change (stm (abs b)) with (b_stm b) in *. set (c := b_stm b) in *.
+  match goal with H : opiece_eqb (piece_at (abs b) (smk (home_rank c) 4)) _ = true |- _ => apply opiece_eqb_true in H; rewrite (piece_at_abs b _ I) in H; rename H into Hking end.
+  match goal with H : opiece_eqb (piece_at (abs b) (corner c side)) _ = true |- _ => apply opiece_eqb_true in H; rewrite (piece_at_abs b _ I) in H; rename H into Hrook end.
+  set (r := back_rank c).
+  set (e := mk_sq r 4). set (kt := mk_sq r (if side then 6 else 2)). set (rf := mk_sq r (if side then 7 else 0)). set (rt := mk_sq r (if side then 5 else 3)).
+  assert (Sq : e = smk (home_rank c) 4 /\ rf = corner c side /\ kt = smk (home_rank c) (if side then 6 else 2) /\ rt = smk (home_rank c) (if side then 5 else 3)
+               /\ e < 64 /\ kt < 64 /\ rf < 64 /\ rt < 64 /\ e <> kt /\ e <> rf /\ e <> rt /\ kt <> rf /\ kt <> rt /\ rf <> rt).
+  { subst e kt rf rt r. destruct c, side; cbv; repeat split; try reflexivity; discriminate. }
+  destruct Sq as (Ee & Erf & Ekt & Ert & He & Hkt & Hrf & Hrt & D1 & D2 & D3 & D4 & D5 & D6).
+  rewrite <- Ee in Hking. rewrite <- Erf in Hrook.
+  unfold castle_facts in CF. cbv zeta in CF. fold c in CF. fold r in CF. fold e kt rf rt in CF.
+  destruct CF as (S1 & R1 & Hh1 & Hf1 & Cells1).
+  unfold finish_facts in FF. rewrite S1 in FF. destruct FF as (F1 & F2 & F3 & F4 & F5 & F6 & F7).
   assert (Rw : forall x, rights_of b' x = match x with White => b_wr b' | Black => b_br b' end) by (intros []; reflexivity).
   assert (HR : forall X, rights_of b' X = if color_eqb X c then Neither else rights_of b X).
   { intros X. destruct (color_eqb X c) eqn:EX.
@@ -432,5 +488,12 @@ Proof.
   - rewrite F3. now destruct side.
   - rewrite F4, Hh1. now destruct side.
   - rewrite F5, Hf1. reflexivity.
+Qed.
+Theorem castle_refines b (side : bool) b' : MaskInv b -> valid (abs b) = true ->
+  legal (abs b) (if side then CastleK else CastleQ) = true ->
+  make_move_unchecked K b (if side then CastleK else CastleQ) = Ok b' -> abs b' = apply (abs b) (if side then CastleK else CastleQ).
+Proof.
+  intros I V L E. destruct (castle_pieces b side I V L) as (b1 & _ & Emk & CF). rewrite Emk in E. apply finish_spec in E.
+  exact (castle_assemble b side b1 b' I V L CF E).
 Qed.
 End Castle.
